@@ -204,20 +204,38 @@ def o4(run, project):
     sep = [d for a, d in zip(ini.args.args[-len(ini.args.defaults):], ini.args.defaults) if a.arg == "sep"]
     run.ob("O4", len(sep) == 1 and isinstance(sep[0], ast.Constant) and sep[0].value == ".", "separator is '.'",
            "default separator changed", module=mod, node=ini, func="NamedRange.__init__", construct="sep default")
-    ef = mod.functions().get("tpm_enum._tpm_enum.__format__")
-    if ef is None:
-        raise AnalysisError("O4: tpm_enum.__format__ not found")
-    rets = [r for r in ast.walk(ef) if isinstance(r, ast.Return)]
-    ok = len(rets) == 1 and norm(rets[0].value) == "f'{type(self).__name__}.{self._name}'"
-    run.ob("O4", ok, "enum text form is Type.member", f"__format__ returns `{norm(rets[0].value) if rets else '?'}`", module=mod,
-           node=ef, func="tpm_enum.__format__", construct="enum __format__")
     enum_fn = mod.functions().get("tpm_enum._tpm_enum")
+    if enum_fn is None:
+        raise AnalysisError("O4: tpm_enum._tpm_enum not found")
+
+    def installed(dunder):
+        """the function object the decorator installs under `dunder`: setattr(cls, "<dunder>", F), directly or in a loop over
+        a tuple of names"""
+        out = []
+        for c in walk_no_nested(enum_fn):
+            if isinstance(c, ast.Call) and call_name(c) == "setattr" and len(c.args) == 3 and isinstance(c.args[2], ast.Name):
+                key = c.args[1]
+                if isinstance(key, ast.Constant) and key.value == dunder:
+                    out.append(c.args[2].id)
+                elif isinstance(key, ast.Name):
+                    lp = c
+                    while lp is not None and not isinstance(lp, ast.For):
+                        lp = getattr(lp, "_parent", None)
+                    if lp is not None and isinstance(lp.target, ast.Name) and lp.target.id == key.id and isinstance(lp.iter, (ast.Tuple, ast.List)) \
+                            and any(isinstance(x, ast.Constant) and x.value == dunder for x in lp.iter.elts):
+                        out.append(c.args[2].id)
+        return out
     for dunder in ("__format__", "__str__", "__repr__"):
-        hit = [c for c in walk_no_nested(enum_fn) if isinstance(c, ast.Call) and call_name(c) == "setattr" and len(c.args) == 3
-               and isinstance(c.args[1], ast.Constant) and c.args[1].value == dunder and norm(c.args[2]) == "__format__"]
-        run.ob("O4", len(hit) == 1, f"enum {dunder} is the Type.member form", f"{dunder} is not installed from __format__",
-               module=mod, node=enum_fn, func="tpm_enum", construct=f"enum {dunder}")
-    # enum __init__: name looked up with by_value; unknown value keeps the integer
+        srcs = installed(dunder)
+        ef = mod.functions().get(f"tpm_enum._tpm_enum.{srcs[0]}") if len(srcs) == 1 else None
+        if dunder == "__format__" and ef is None:
+            raise AnalysisError("O4: the function tpm_enum installs as __format__ was not found")
+        rets = [r for r in ast.walk(ef) if isinstance(r, ast.Return)] if ef is not None else []
+        ok = len(rets) == 1 and norm(rets[0].value) == "f'{type(self).__name__}.{self._name}'"
+        run.ob("O4", ok, f"enum {dunder} is the Type.member form",
+               f"{dunder} is installed from {srcs or 'nothing'}" + (f", which returns `{norm(rets[0].value)}`" if rets else ""), module=mod,
+               node=ef or enum_fn, func="tpm_enum", construct="enum __format__" if dunder == "__format__" else f"enum {dunder}")
+    # enum __init__: name looked up by value; unknown value keeps the integer
     ei = mod.functions().get("tpm_enum._tpm_enum.__init__")
     if ei is None:
         raise AnalysisError("O4: tpm_enum.__init__ not found")
@@ -225,14 +243,23 @@ def o4(run, project):
     run.require(len(ep) == 3, "O4: tpm_enum.__init__ signature changed")
     ev, en = ep[1], ep[2]
     look = f"type(self).by_value({ev})"
-    n = check_table(run, "O4", mod, ei, "tpm_enum.__init__",
-                    [({f"{en} is None": False}, (en, ev)),
-                     ({f"{en} is None": True, "try raises ValueError": True}, ("None", ev)),
-                     ({f"{en} is None": True}, (f"{look}._name", f"{look}._value"))],
+    atoms_i = {a_ for p_ in paths.summarise(mod, ei) for a_, _t, _ in p_.cond}
+    alt = sorted(a_ for a_ in atoms_i if a_.startswith("type(self).") and a_.endswith(f"({ev}) is None"))
+    if alt:
+        # the lookup answers None for an unknown value (the search helper guarded by G4) instead of raising
+        look = alt[0][:-len(" is None")]
+        rows = [({f"{en} is None": False}, (en, ev)), ({f"{en} is None": True, alt[0]: True}, ("None", ev)),
+                ({f"{en} is None": True}, (f"{look}._name", f"{look}._value"))]
+        closed = ()
+    else:
+        rows = [({f"{en} is None": False}, (en, ev)), ({f"{en} is None": True, "try raises ValueError": True}, ("None", ev)),
+                ({f"{en} is None": True}, (f"{look}._name", f"{look}._value"))]
+        closed = ("try raises ValueError",)
+    n = check_table(run, "O4", mod, ei, "tpm_enum.__init__", rows,
                     lambda q: (stores(q).get("self._name"), stores(q).get("self._value")), None,
                     "enum construction keeps a given name, else looks the member up by value and keeps unknown integers without a name",
                     "enum __init__", skip=lambda q: q.end == "raise", show=lambda o: f"(_name, _value) = {o}",
-                    closed=("try raises ValueError",))
+                    closed=closed)
     run.require(n >= 3, "O4: tpm_enum.__init__ has fewer than three outcomes")
     # _INT text form delegates to the wrapped value
     base = project.module(BASE)
